@@ -648,9 +648,21 @@ impl<'tcx> Cx<'tcx> {
                 .iter()
                 .map(|f| {
                     let fty = tcx.type_of(f.did).instantiate_identity().skip_norm_wip();
+                    let nty = if did.is_local() {
+                        match tcx.try_normalize_erasing_regions(
+                            ty::TypingEnv::post_analysis(tcx, did),
+                            tcx.type_of(f.did).instantiate_identity(),
+                        ) {
+                            Ok(t) => format!("{}", t),
+                            Err(_) => format!("{}", fty),
+                        }
+                    } else {
+                        format!("{}", fty)
+                    };
                     V::O(vec![
                         ("name", s(f.name.to_string())),
                         ("ty", s(format!("{}", fty))),
+                        ("nty", s(nty)),
                         ("pub", V::B(f.vis.is_public())),
                     ])
                 })
